@@ -542,6 +542,39 @@ def _multi_op_transactions(ctx, rep, base):
                                 f"transaction changed the table (rows {got})", case)
                 elif got != want and got != [1]:
                     rep.violate("C11:accepted-append-not-exact:multi-op", f"after a rejected batch the same transaction's record append gives a={got}", case)
+    # (1c) two GOOD pre-built files with the same base name in two partition directories, in one transaction and in two: every row of both
+    # comes back through every read path, and deleting one leaves the other
+    for split in (False, True):
+        p = os.path.join(base, f"multi-samebase-{int(split)}")
+        t = create_table(p, Schema(schema_id=1, fields=fields))
+        t.append_records([{"a": 1, "b": "x"}])
+        fa, fb = mkfile(p, "data/region=eu/part-0.parquet", sch, 21), mkfile(p, "data/region=us/part-0.parquet", sch, 22)
+        if split:
+            t.append_data([fa])
+            t.append_data([fb])
+        else:
+            with t.new_transaction() as tx:
+                tx.append_files([fa, fb])
+                tx.commit()
+        rep.evaluations += 1
+        rep.nontrivial(["multi-op-samebase", split])
+        case = {"kind": "prebuilt-files-same-base-name", "one_transaction": not split}
+        for label, hh in (("same-handle", t), ("fresh-handle", load_table(p))):
+            outs = {"scan": sorted(r["a"] for r in hh.scan()), "scan(parallel=2)": sorted(r["a"] for r in hh.scan(parallel=2)),
+                    "scan_batches": sorted(r["a"] for b_ in hh.scan_batches(batch_size=1) for r in b_),
+                    "iter_records": sorted(r["a"] for r in hh.iter_records()), "row_count": hh.row_count(),
+                    "filter a==22": sorted(r["a"] for r in hh.scan(filter={"a": 22}))}
+            want = {"scan": [1, 21, 22], "scan(parallel=2)": [1, 21, 22], "scan_batches": [1, 21, 22], "iter_records": [1, 21, 22], "row_count": 3, "filter a==22": [22]}
+            bad = {k_: v_ for k_, v_ in outs.items() if v_ != want[k_]}
+            if bad:
+                rep.violate("C11:accepted-append-not-exact:multi-op", f"two accepted pre-built files with the same base name in two directories: {label} {bad}", case)
+                break
+        with t.new_transaction() as tx:
+            tx.delete_files([fa.file_path])
+            tx.commit()
+        got = sorted(r["a"] for r in load_table(p).scan())
+        if got != [1, 22]:
+            rep.violate("C11:accepted-append-not-exact:multi-op", f"after deleting {fa.file_path} the table reads a={got} (expected [1, 22])", case)
     # (2) same base name in two sub-directories, the second one divergent; and a rejected file offered again on the same transaction
     for scenario in ("same-basename", "retry-rejected"):
         p = os.path.join(base, "multi-" + scenario)
